@@ -24,12 +24,19 @@ structure EngineInfo where
   hedges : List String       -- keys of the hedge factory
 deriving Repr
 
-/-- `{v.name: v for v in engine.variables}.get(token)`: the last variable of that name -/
-def EngineInfo.findVar (e : EngineInfo) (n : String) : Option VarInfo := e.vars.reverse.find? (·.name == n)
+/-- what Python's `if variable:` accepts: a variable object is true when it has a term (`Variable.__len__` is the
+    number of terms; there is no `__bool__`) -/
+def VarInfo.truthy (v : VarInfo) : Bool := !v.terms.isEmpty
 
-/-- `{v.name: v for v in engine.output_variables}.get(token)` -/
+/-- `variable = {v.name: v for v in engine.variables}.get(token)` followed by `if variable:` – the last variable of
+    that name, provided it is true in Python's sense (it has a term).  A name whose last variable has no terms is
+    *not recognised* by the loaders (`Rule.create("if A is any then …")` raises `SyntaxError` at `A`). -/
+def EngineInfo.findVar (e : EngineInfo) (n : String) : Option VarInfo :=
+  (e.vars.reverse.find? (·.name == n)).filter VarInfo.truthy
+
+/-- the same over `{v.name: v for v in engine.output_variables}` -/
 def EngineInfo.findOut (e : EngineInfo) (n : String) : Option VarInfo :=
-  (e.vars.filter (·.isOutput)).reverse.find? (·.name == n)
+  ((e.vars.filter (·.isOutput)).reverse.find? (·.name == n)).filter VarInfo.truthy
 
 structure AFlags where
   var_ : Bool
